@@ -594,6 +594,39 @@ def no_tolerance_shortcut(chk, repo, pid):
                f'`{seg(f, node)[:80]}` decides a branch: with the default absolute tolerance values below 1e-8 count as equal, '
                f'whatever their unit or scale', f.loc(node))
     chk.ob(clause, 'T-tolerance', '+'.join(mods), 'no tolerance shortcut', not bad, f'{n} functions scanned', '')
+    # np.arange with a fractional step: the number of samples depends on rounding (stop - start)/step, so arrays built
+    # from it are one sample longer for some sizes - shapes stop being a function of the arguments' shapes
+    badr = []
+    for f in repo.all_functions():
+        if f.module.name not in mods:
+            continue
+        fractional = set()
+        for node in ast.walk(f.node):
+            if isinstance(node, ast.Assign) and len(node.targets) == 1 and isinstance(node.targets[0], ast.Name) and \
+                    _fractional_expr(node.value, fractional):
+                fractional.add(node.targets[0].id)
+        for node in ast.walk(f.node):
+            if isinstance(node, ast.Call) and (dotted(node.func) or '').split('.')[-1] == 'arange':
+                step = node.args[2] if len(node.args) >= 3 else next((k.value for k in node.keywords if k.arg == 'step'), None)
+                if step is not None and _fractional_expr(step, fractional):
+                    badr.append((f, node))
+    for f, node in badr:
+        chk.ob(clause, 'T-tolerance', f.key, 'no np.arange with a fractional step', False,
+               f'`{seg(f, node)[:90]}`: the length of a float-step arange is ceil((stop - start)/step) in floating point - one '
+               f'sample more for some arguments', f.loc(node))
+
+
+def _fractional_expr(node, names):
+    """the expression is certainly not integer valued: it contains a true division, a fractional literal, or a name that was
+    assigned such an expression in the same function"""
+    for x in ast.walk(node):
+        if isinstance(x, ast.BinOp) and isinstance(x.op, ast.Div):
+            return True
+        if isinstance(x, ast.Constant) and isinstance(x.value, float) and x.value != int(x.value):
+            return True
+        if isinstance(x, ast.Name) and x.id in names:
+            return True
+    return False
 
 
 class Remap:
